@@ -23,6 +23,16 @@ var VerifIOHook func(db *DB, kind string, off int64, data []byte) error
 // VerifFLHook, when set, receives every call made to the database's freelist.
 var VerifFLHook func(db *DB, ev string, a, b, c uint64)
 
+// VerifEventHook, when set, is told about scheduling-relevant events
+// ("batch-enqueue": a call was appended to the current batch, n = queue length).
+var VerifEventHook func(db *DB, ev string, n int)
+
+func verifEvent(db *DB, ev string, n int) {
+	if h := VerifEventHook; h != nil {
+		h(db, ev, n)
+	}
+}
+
 func verifIO(db *DB, kind string, off int64, data []byte) error {
 	if h := VerifIOHook; h != nil {
 		return h(db, kind, off, data)
